@@ -24,6 +24,50 @@ static void betti(const bool* p, int* b) {
   for (int q = 0; q < ns; q++) cntd[pcnt(list[q]) - 1]++;
   for (int d = 0; d < NV; d++) b[d] = cntd[d] - rankd[d] - rankd[d + 1];
 }
+
+// ------------------------------------------------------------------------------------------------------------------------------------------
+// Full oracle: interval decomposition of the zigzag module by the right-filtration algorithm of Carlsson & de Silva ("Zigzag persistence", 2010,
+// Thm 4.1), on explicit homology bases over GF(2). Independent of GUDHI's chain-matrix/diamond implementation. Spaces are tiny (dim <= 6), so a
+// subspace is a 64-bit membership mask over the 2^h vectors and every operation is brute force.
+#ifdef VP_FULLORACLE
+enum { HMAX = 6 };
+typedef unsigned long long Sub;                     // subspace of GF(2)^h as a set of h-bit vectors
+struct Ech { unsigned vec[2 * NS]; unsigned tag[2 * NS]; int n; };   // echelon rows (chain, coordinate tag) ordered by insertion, reduced on insertion
+static unsigned bd_of(int m) { unsigned b = 0; if (pcnt(m) > 1) for (int v = 0; v < NV; v++) if (m >> v & 1) b ^= 1u << (m & ~(1 << v)); return b; }
+static void ech_reduce(const Ech& E, unsigned& v, unsigned& t) { for (int i = 0; i < E.n; i++) { unsigned lead = 1u << (31 - __builtin_clz(E.vec[i])); if (v & lead) { v ^= E.vec[i]; t ^= E.tag[i]; } } }
+static bool ech_add(Ech& E, unsigned v, unsigned t) { ech_reduce(E, v, t); if (!v) return false; // keep rows mutually reduced w.r.t. leading bits: order rows by decreasing lead
+  int pos = E.n; for (int i = 0; i < E.n; i++) if (E.vec[i] < v) { pos = i; break; } for (int i = E.n; i > pos; i--) { E.vec[i] = E.vec[i - 1]; E.tag[i] = E.tag[i - 1]; } E.vec[pos] = v; E.tag[pos] = t; E.n++; return true; }
+struct Hom { int h; unsigned rep[HMAX]; Ech E; };   // H_d(K): representatives and the echelon basis of B_d + representatives (tag bit j = representative j)
+static void homology(const bool* p, int d, Hom& H) {
+  H.h = 0; H.E.n = 0;
+  for (int m = 1; m < NS; m++) if (p[m] && pcnt(m) == d + 2) ech_add(H.E, bd_of(m), 0);                 // boundaries B_d
+  Ech Z; Z.n = 0; unsigned cyc[NS]; int nc = 0;                                                           // cycles Z_d: kernel of the boundary on d-chains
+  for (int m = 1; m < NS; m++) if (p[m] && pcnt(m) == d + 1) { unsigned b = bd_of(m), c = 1u << m; ech_reduce(Z, b, c); if (b) ech_add(Z, b, c); else cyc[nc++] = c; }
+  // NOTE: tags of Z rows carry the chain; ech_reduce above already combined them
+  for (int i = 0; i < nc; i++) if (H.h < HMAX) { unsigned v = cyc[i], t = 1u << H.h; if (ech_add(H.E, v, t)) { H.rep[H.h] = cyc[i]; H.h++; } }
+}
+static unsigned coords(const Hom& H, unsigned cycle) { unsigned v = cycle, t = 0; ech_reduce(H.E, v, t); return t; }   // class of a cycle in the basis of H (v must reduce to 0)
+static int sdim(Sub s) { return __builtin_ctzll((unsigned long long)__builtin_popcountll(s)); }
+struct RF { int m; Sub S[K + 2]; int beta[K + 2]; };   // right filtration S_1 <= ... <= S_m = V with birth labels
+struct Oracle { int nfin; int fb[4 * K], fd[4 * K], fdim[4 * K]; };
+static void emit(Oracle& O, int dim, int b, int d, int mult) { for (int q = 0; q < mult; q++) if (O.nfin < 4 * K) { O.fdim[O.nfin] = dim; O.fb[O.nfin] = b; O.fd[O.nfin] = d; O.nfin++; } }
+// one arrow: `from` (dimension hf) and `to` (ht); forward: lin maps from->to given by img[j] (image of basis vector j of `from`); backward: lin maps to->from
+static void rf_step(RF& R, int hf, int ht, const unsigned* img, bool forward, int arrow, int dim, Oracle& O) {
+  auto apply = [&](unsigned x, int n) { unsigned y = 0; for (int j = 0; j < n; j++) if (x >> j & 1) y ^= img[j]; return y; };
+  RF N; N.m = 0;
+  if (forward) { Sub ker = 0; for (unsigned x = 0; x < (1u << hf); x++) if (apply(x, hf) == 0) ker |= 1ULL << x;
+    Sub prev = 1; for (int j = 0; j < R.m; j++) { int c = sdim(R.S[j] & ker) - sdim(prev & ker); emit(O, dim, R.beta[j], arrow, c); prev = R.S[j]; }
+    for (int j = 0; j < R.m; j++) { Sub im = 0; for (unsigned x = 0; x < (1u << hf); x++) if (R.S[j] >> x & 1) im |= 1ULL << apply(x, hf); N.S[N.m] = im; N.beta[N.m] = R.beta[j]; N.m++; }
+    N.S[N.m] = ht >= 6 ? ~0ULL : ((1ULL << (1u << ht)) - 1); N.beta[N.m] = arrow; N.m++; }
+  else { Sub im = 0; for (unsigned y = 0; y < (1u << ht); y++) im |= 1ULL << apply(y, ht);
+    Sub prev = 1; for (int j = 0; j < R.m; j++) { int c = (sdim(R.S[j]) - sdim(prev)) - (sdim(R.S[j] & im) - sdim(prev & im)); emit(O, dim, R.beta[j], arrow, c); prev = R.S[j]; }
+    { Sub pre = 0; for (unsigned y = 0; y < (1u << ht); y++) if (apply(y, ht) == 0) pre |= 1ULL << y; N.S[N.m] = pre; N.beta[N.m] = arrow; N.m++; }
+    for (int j = 0; j < R.m; j++) { Sub pre = 0; for (unsigned y = 0; y < (1u << ht); y++) if (R.S[j] >> apply(y, ht) & 1) pre |= 1ULL << y; N.S[N.m] = pre; N.beta[N.m] = R.beta[j]; N.m++; } }
+  // drop repeated subspaces (they carry no interval) to keep the list short
+  RF C; C.m = 0; Sub prev = 1; for (int j = 0; j < N.m; j++) if (N.S[j] != prev) { C.S[C.m] = N.S[j]; C.beta[C.m] = N.beta[j]; C.m++; prev = N.S[j]; }
+  R = C;
+}
+#endif
 struct Bar { int dim, b, d; };
 extern "C" void harness() {
   std::vector<Bar> fin;   // finite intervals as streamed
@@ -37,16 +81,25 @@ extern "C" void harness() {
   bool openb[NV][K + 1]; for (int d = 0; d < NV; d++) for (int i = 0; i <= K; i++) openb[d][i] = false;
   int prevb[NV]; for (int d = 0; d < NV; d++) prevb[d] = 0; bool insert_only = true; size_t seenfin = 0;
   int order[K], norder = 0;   // cells in insertion order (for the insertion-only clause)
+#ifdef VP_FULLORACLE
+  static Hom Hprev[NV], Hcur[NV]; static RF R[NV]; static Oracle O; O.nfin = 0; bool prevp[NS]; for (int m = 0; m < NS; m++) prevp[m] = false; for (int d = 0; d < NV; d++) { R[d].m = 0; Hprev[d].h = 0; Hprev[d].E.n = 0; }
+#endif
   for (int step = 0; step < K; step++) {
-    int kind = vp_fork_int(vp_int("arrow", 0, 2)); int cd = -1; int arrow = -1;
-    if (kind == 0) { int m = vp_fork_int(vp_int("mask", 1, NS - 1)); vp_assume(!present[m]); std::vector<int> bd; for (int s = 1; s < NS; s++) if ((s & m) == s && s != m) { vp_assume(present[s]); if (pcnt(s) == pcnt(m) - 1) bd.push_back(key[s]); }
+#ifdef VP_EDGES_ONLY
+    // graph zigzag: the vertices enter first (concrete arrows), then every arrow inserts or removes an edge
+    int kind = step < NV ? 0 : vp_fork_int(vp_int("arrow", 0, 1)); int cd = -1; int arrow = -1; int m_pre = step < NV ? (1 << step) : 0;
+    if (step >= NV) { static int edges[NV * (NV - 1) / 2]; int ne = 0; for (int a = 0; a < NV; a++) for (int c = a + 1; c < NV; c++) edges[ne++] = 1 << a | 1 << c; m_pre = edges[vp_fork_int(vp_int("edge", 0, ne - 1))]; }
+#else
+    int kind = vp_fork_int(vp_int("arrow", 0, 2)); int cd = -1; int arrow = -1; int m_pre = 0;
+#endif
+    if (kind == 0) { int m = m_pre ? m_pre : vp_fork_int(vp_int("mask", 1, NS - 1)); vp_assume(!present[m]); std::vector<int> bd; for (int s = 1; s < NS; s++) if ((s & m) == s && s != m) { vp_assume(present[s]); if (pcnt(s) == pcnt(m) - 1) bd.push_back(key[s]); }
       for (size_t a = 0; a < bd.size(); a++) for (size_t c = a + 1; c < bd.size(); c++) if (bd[c] < bd[a]) { int t = bd[a]; bd[a] = bd[c]; bd[c] = t; }
       arrow = key[m] = (int)zp.insert_cell(bd, pcnt(m) - 1); present[m] = true; cd = pcnt(m) - 1; order[norder++] = m;
 #ifdef VP_FILTERED
       val += vp_fork_int(vp_int("dv", 0, 1)); fzp.insert_cell(m, [&]{ std::vector<int> ids; for (int s = 1; s < NS; s++) if ((s & m) == s && pcnt(s) == pcnt(m) - 1) ids.push_back(s); return ids; }(), pcnt(m) - 1, (double)val);
 #endif
       vp_reach("insert"); }
-    else if (kind == 1) { int m = vp_fork_int(vp_int("mask", 1, NS - 1)); vp_assume(present[m]); for (int s = 1; s < NS; s++) if (s != m && (s & m) == m) vp_assume(!present[s]);
+    else if (kind == 1) { int m = m_pre ? m_pre : vp_fork_int(vp_int("mask", 1, NS - 1)); vp_assume(present[m]); for (int s = 1; s < NS; s++) if (s != m && (s & m) == m) vp_assume(!present[s]);
       arrow = (int)zp.remove_cell(key[m]); present[m] = false; cd = pcnt(m) - 1; insert_only = false;
 #ifdef VP_FILTERED
       val += vp_fork_int(vp_int("dv", 0, 1)); fzp.remove_cell(m, (double)val);
@@ -75,7 +128,23 @@ extern "C" void harness() {
       zp.get_current_infinite_intervals([&](int dim, int birth) { vp_assert(dim >= 0 && dim < NV && birth >= 0 && birth <= step && !rep[dim < 0 || dim >= NV ? 0 : dim][birth < 0 || birth > K ? 0 : birth], "open interval listed once with a valid birth index"); if (dim >= 0 && dim < NV && birth >= 0 && birth <= K) rep[dim][birth] = true; });
       for (int d = 0; d < NV; d++) for (int i = 0; i <= K; i++) vp_assert(rep[d][i] == openb[d][i], "the open intervals are exactly the births not yet closed, with the right dimension"); }
     for (int d = 0; d < NV; d++) prevb[d] = b[d];
+#ifdef VP_FULLORACLE
+    for (int d = 0; d < NV - 1; d++) { homology(present, d, Hcur[d]); unsigned img[HMAX];
+      if (kind == 0) { for (int j = 0; j < Hprev[d].h; j++) img[j] = coords(Hcur[d], Hprev[d].rep[j]); rf_step(R[d], Hprev[d].h, Hcur[d].h, img, true, step, d, O); }       // K_{i-1} subset K_i: forward map
+      else if (kind == 1) { for (int j = 0; j < Hcur[d].h; j++) img[j] = coords(Hprev[d], Hcur[d].rep[j]); rf_step(R[d], Hprev[d].h, Hcur[d].h, img, false, step, d, O); }  // K_i subset K_{i-1}: backward map
+      else { for (int j = 0; j < Hprev[d].h; j++) img[j] = 1u << j; rf_step(R[d], Hprev[d].h, Hcur[d].h, img, true, step, d, O); }
+      Hprev[d] = Hcur[d]; }
+#endif
   }
+#ifdef VP_FULLORACLE
+  { // the streamed finite intervals and the open ones are exactly the interval decomposition computed by the oracle
+    vp_assert((int)fin.size() == O.nfin, "number of finite intervals = interval decomposition of the zigzag module"); std::vector<bool> used(fin.size(), false);
+    for (int q = 0; q < O.nfin; q++) { bool found = false; for (size_t i = 0; i < fin.size(); i++) if (!used[i] && fin[i].dim == O.fdim[q] && fin[i].b == O.fb[q] && fin[i].d == O.fd[q]) { used[i] = true; found = true; break; } vp_assert(found, "finite intervals = interval decomposition of the zigzag module (births paired with the right deaths)"); }
+    int expopen[NV][K + 1]; for (int d = 0; d < NV; d++) for (int i = 0; i <= K; i++) expopen[d][i] = 0;
+    for (int d = 0; d < NV - 1; d++) { Sub prev = 1; for (int j = 0; j < R[d].m; j++) { expopen[d][R[d].beta[j]] += sdim(R[d].S[j]) - sdim(prev); prev = R[d].S[j]; } }
+    for (int d = 0; d < NV - 1; d++) for (int i = 0; i < K; i++) vp_assert((openb[d][i] ? 1 : 0) == expopen[d][i], "open intervals = interval decomposition of the zigzag module");
+    vp_reach("full-oracle"); }
+#endif
   if (insert_only) { // ordinary persistence: pairing of an independent reduction of the boundary matrix in insertion order
     int n = norder; int pos[NS]; for (int i = 0; i < n; i++) pos[order[i]] = i; unsigned col[K]; int low[K];
     for (int j = 0; j < n; j++) { col[j] = 0; int m = order[j]; if (pcnt(m) > 1) for (int i = 0; i < NV; i++) if (m >> i & 1) col[j] |= 1u << pos[m & ~(1 << i)];
